@@ -301,7 +301,12 @@ def interrupt_sweep(res: Result) -> int:
                         if intr == "cancel-same-turn":
                             w.cancel("finish")
                         elif intr == "force-same-turn":
-                            w.conn.force_disconnect()
+                            try:
+                                w.conn.force_disconnect()
+                            except Exception as e:  # noqa: BLE001
+                                res.add(f"interrupt:{'noise' if noise else 'plain'}:{ans}:{intr}:force-raises",
+                                        f"C09:unclassified:force_disconnect() raised {type(e).__name__}: {e} - device answered {ans}, login={login}",
+                                        {"noise": noise, "answer": ans, "interrupt": intr, "login": login})
                         elif intr == "disc-same-turn":
                             w.spawn("disc", w.conn.disconnect)
                         elif intr == "eof-same-turn" and not s.closed:
